@@ -48,7 +48,10 @@ func NewChainMultiBranch[T any](cond GraphMultiBranchCondition[T]) *ChainBranch 
 			return nil, err
 		}
 		endNodes = make([]string, 0, len(ends))
-		for end := range ends {
+		for end, selected := range ends {
+			if !selected {
+				continue // answered false: not selected
+			}
 			endNodes = append(endNodes, end)
 		}
 		return endNodes, nil
@@ -67,7 +70,10 @@ func NewStreamChainMultiBranch[T any](cond StreamGraphMultiBranchCondition[T]) *
 			return nil, err
 		}
 		endNodes = make([]string, 0, len(ends))
-		for end := range ends {
+		for end, selected := range ends {
+			if !selected {
+				continue // answered false: not selected
+			}
 			endNodes = append(endNodes, end)
 		}
 		return endNodes, nil
